@@ -246,7 +246,7 @@ Proof.
   destruct Hhd as (c & r & Hpl & Hc).
   assert (Hs : split_sign (sign_str s ++ plain ip fp) = (s, plain ip fp)).
   { destruct s; [reflexivity|]. cbn [sign_str append]. rewrite Hpl. now apply split_sign_digit. }
-  rewrite Hs.
+  rewrite Hs. unfold rust_float_unsigned.
   destruct (lower_s_digits_head c r Hc) as (E1 & E2 & E3).
   cbv zeta. rewrite <- Hpl in E1, E2, E3. rewrite E1, E2, E3. cbn [orb].
   rewrite (scan_mantissa_plain ip fp Hi Hne Hf). reflexivity.
@@ -310,22 +310,19 @@ Proof.
     cbn [is_empty]. now rewrite andb_false_r.
 Qed.
 
-Lemma rust_float_syntax_dec_text : forall ip fp ex,
+Lemma rust_float_unsigned_dec_text : forall s ip fp ex,
   all_digits ip = true -> all_digits fp = true -> (ip <> "" \/ fp <> "") -> exp_ok ex ->
-  rust_float_syntax (dec_text ip fp ex)
-  = Some (FDec false (digits_val (ip ++ fp) 0) (exp_val ex - slen fp)).
+  rust_float_unsigned s (dec_text ip fp ex)
+  = Some (FDec s (digits_val (ip ++ fp) 0) (exp_val ex - slen fp)).
 Proof.
-  intros ip fp ex Hi Hf Hne Hex. unfold rust_float_syntax.
+  intros s ip fp ex Hi Hf Hne Hex. unfold rust_float_unsigned.
   assert (Hhd : exists c r, dec_text ip fp ex = String c r /\ (is_digit c = true \/ c = "."%char)).
   { unfold dec_text. destruct ip as [|c ip'].
     - destruct fp as [|c2 fp']; [destruct Hne; congruence|].
       exists "."%char, (String c2 fp' ++ exp_text ex). split; [reflexivity | now right].
     - simpl in Hi. apply andb_prop in Hi. exists c, (ip' ++ frac_text fp ++ exp_text ex).
       split; [reflexivity | left; tauto]. }
-  destruct Hhd as (c & r & Ht & Hc).
-  assert (Hs : split_sign (dec_text ip fp ex) = (false, dec_text ip fp ex)).
-  { rewrite Ht. destruct Hc as [Hc|Hc]; [now apply split_sign_digit | subst c; reflexivity]. }
-  rewrite Hs. cbv zeta.
+  destruct Hhd as (c & r & Ht & Hc). cbv zeta.
   assert (E : String.eqb (lower_s (dec_text ip fp ex)) "inf" = false /\
               String.eqb (lower_s (dec_text ip fp ex)) "infinity" = false /\
               String.eqb (lower_s (dec_text ip fp ex)) "nan" = false).
@@ -333,3 +330,33 @@ Proof.
   destruct E as (E1 & E2 & E3). rewrite E1, E2, E3. cbn [orb].
   rewrite (scan_mantissa_dec_text ip fp ex Hi Hf Hne), (scan_exponent_exp_text ex Hex). reflexivity.
 Qed.
+
+Lemma dec_text_head : forall ip fp ex, all_digits ip = true -> all_digits fp = true -> (ip <> "" \/ fp <> "") ->
+  exists c r, dec_text ip fp ex = String c r /\ (is_digit c = true \/ c = "."%char).
+Proof.
+  intros ip fp ex Hi Hf Hne. unfold dec_text. destruct ip as [|c ip'].
+  - destruct fp as [|c2 fp']; [destruct Hne; congruence|].
+    exists "."%char, (String c2 fp' ++ exp_text ex). split; [reflexivity | now right].
+  - simpl in Hi. apply andb_prop in Hi. exists c, (ip' ++ frac_text fp ++ exp_text ex).
+    split; [reflexivity | left; tauto].
+Qed.
+
+(* with an optional leading '-' (what Display, serde_json and to_number texts carry) *)
+Lemma rust_float_syntax_signed_dec_text : forall s ip fp ex,
+  all_digits ip = true -> all_digits fp = true -> (ip <> "" \/ fp <> "") -> exp_ok ex ->
+  rust_float_syntax (sign_str s ++ dec_text ip fp ex)
+  = Some (FDec s (digits_val (ip ++ fp) 0) (exp_val ex - slen fp)).
+Proof.
+  intros s ip fp ex Hi Hf Hne Hex. unfold rust_float_syntax.
+  assert (Hs : split_sign (sign_str s ++ dec_text ip fp ex) = (s, dec_text ip fp ex)).
+  { destruct s; [reflexivity|]. cbn [sign_str append].
+    destruct (dec_text_head ip fp ex Hi Hf Hne) as (c & r & Ht & Hc). rewrite Ht.
+    destruct Hc as [Hc|Hc]; [now apply split_sign_digit | subst c; reflexivity]. }
+  rewrite Hs. now apply rust_float_unsigned_dec_text.
+Qed.
+
+Lemma rust_float_syntax_dec_text : forall ip fp ex,
+  all_digits ip = true -> all_digits fp = true -> (ip <> "" \/ fp <> "") -> exp_ok ex ->
+  rust_float_syntax (dec_text ip fp ex)
+  = Some (FDec false (digits_val (ip ++ fp) 0) (exp_val ex - slen fp)).
+Proof. intros. now apply (rust_float_syntax_signed_dec_text false). Qed.
